@@ -5,7 +5,7 @@
 # the run go to a scratch directory. Prints the verdict lines and the check's exit code.
 set -u
 PATCH=$(realpath "$1"); ID=$2; TIER=${3:-quick}
-SW=/tmp/seedrepo.$$
+SW=/tmp/seedrepo.slot
 git -C /repo worktree add --detach "$SW" HEAD >/dev/null 2>&1 || { echo "cannot create worktree"; exit 2; }
 trap 'git -C /repo worktree remove --force "$SW" >/dev/null 2>&1; rm -rf "/verif/.work/seed.$$"' EXIT
 cd "$SW" || exit 2
